@@ -48,6 +48,7 @@ def check(repo, col, tier):
     c01_solver._schedule(repo, col, "R-C15-schedule")
     col.rule("R-C15-ends", "branch-point edges attach at each branch's own first / last compartment", 4)
     c01_solver._ends(repo, col, "R-C15-ends")
+    c01_solver.category_major(repo, col, "R-C15-ends")
 
 
 def _channel_factor(repo, col):
